@@ -9,6 +9,8 @@ pub enum Mode {
     Model,
     /// Use the reference shape with this (concrete) end offset of the hex text.
     Contract(usize),
+    /// The harness guarantees the input is malformed: no match.
+    Reject,
 }
 
 static mut MODE: Mode = Mode::Unset;
